@@ -59,6 +59,19 @@ func (o *oneByteReader) Read(p []byte) (int, error) {
 	return o.in.Read(p[:1])
 }
 
+// chunkReader hands out at most n bytes per call with a nil error (short reads of 7 / 16 / 31 bytes).
+type chunkReader struct {
+	in io.Reader
+	n  int
+}
+
+func (o *chunkReader) Read(p []byte) (int, error) {
+	if len(p) > o.n {
+		p = p[:o.n]
+	}
+	return o.in.Read(p)
+}
+
 var errInjected = errors.New("verif: injected reader failure")
 
 // failReader delivers n bytes in total (possibly over several calls), then fails.
@@ -215,6 +228,46 @@ func (h *harness) batchSuite(w *mc.W, what string, recs []sigRec, salt int) {
 				w.Fail("BatchVerifier.Verify/rejects-valid-signatures/"+p.name, fmt.Sprintf("%s: batch of %d valid signatures under preset %s (mode %d): all=%v each=%v", what, len(recs), p.name, mode, all, each),
 					map[string]string{"first_sig": mc.Hex(recs[0].sig), "first_pub": mc.Hex(recs[0].pub), "n": fmt.Sprint(len(recs))})
 			}
+			// the same verifier object after a FAILED batch (one signature bit flipped) and Reset, then after Reset again
+			if len(recs) <= 8 {
+				bv.Reset()
+				if mode == 1 {
+					bv.ForceNoPublicKeyExpansion()
+				}
+				flip := append([]byte{}, recs[0].sig...)
+				flip[(salt+5)%64] ^= 1 << uint(salt%8)
+				bv.AddWithOptions(recs[0].pub, recs[0].m, flip, &ed.Options{Hash: recs[0].hash, Context: recs[0].ctx, Verify: p.vo})
+				for _, r := range recs {
+					bv.AddWithOptions(r.pub, r.m, r.sig, &ed.Options{Hash: r.hash, Context: r.ctx, Verify: p.vo})
+				}
+				all, each := bv.Verify(&streamReader{buf: mc.Bytes(h.c.Seed, "c02-batch-rand3", salt*8+pi*2+mode, 64)})
+				w.EvalN("batch-reuse/"+p.name, int64(len(recs)+1), true)
+				bad := all || len(each) != len(recs)+1 || each[0]
+				for j := 1; j < len(each); j++ {
+					bad = bad || !each[j]
+				}
+				if bad {
+					w.Fail("BatchVerifier.Verify/after-Reset/"+p.name, fmt.Sprintf("%s: after Reset, [changed signature, %d valid] gives all=%v each=%v (mode %d)", what, len(recs), all, each, mode),
+						map[string]string{"first_sig": mc.Hex(recs[0].sig), "first_pub": mc.Hex(recs[0].pub)})
+				}
+				bv.Reset()
+				if mode == 1 {
+					bv.ForceNoPublicKeyExpansion()
+				}
+				for j := len(recs) - 1; j >= 0; j-- {
+					r := recs[j]
+					bv.AddWithOptions(r.pub, r.m, r.sig, &ed.Options{Hash: r.hash, Context: r.ctx, Verify: p.vo})
+				}
+				all, each = bv.Verify(&streamReader{buf: mc.Bytes(h.c.Seed, "c02-batch-rand4", salt*8+pi*2+mode, 64)})
+				bad = !all || len(each) != len(recs)
+				for _, e := range each {
+					bad = bad || !e
+				}
+				if bad {
+					w.Fail("BatchVerifier.Verify/after-Reset/"+p.name, fmt.Sprintf("%s: after a failed batch and Reset, %d valid signatures give all=%v each=%v (mode %d)", what, len(recs), all, each, mode),
+						map[string]string{"first_sig": mc.Hex(recs[0].sig), "first_pub": mc.Hex(recs[0].pub)})
+				}
+			}
 			rd2 := &streamReader{buf: mc.Bytes(h.c.Seed, "c02-batch-rand2", salt*8+pi*2+mode, 64+16*len(recs))}
 			only := bv.VerifyBatchOnly(rd2)
 			// documented: a batch containing cofactor-less entries returns false from VerifyBatchOnly
@@ -290,7 +343,11 @@ func run(c *mc.Ctx) {
 			{"stream", func() io.Reader { return &streamReader{buf: full} }, false},
 			{"exactly-32", func() io.Reader { return &streamReader{buf: full[:32]} }, false},
 			{"one-byte", func() io.Reader { return &oneByteReader{&streamReader{buf: full}} }, false},
+			{"7-byte-reads", func() io.Reader { return &chunkReader{&streamReader{buf: full}, 7} }, false},
+			{"16-byte-reads", func() io.Reader { return &chunkReader{&streamReader{buf: full}, 16} }, false},
+			{"31-byte-reads", func() io.Reader { return &chunkReader{&streamReader{buf: full}, 31} }, false},
 			{"fail-after-0", func() io.Reader { return &failReader{&streamReader{buf: full}, 0} }, true},
+			{"stream-after-failure", func() io.Reader { return &streamReader{buf: full} }, false},
 			{"fail-after-1", func() io.Reader { return &failReader{&streamReader{buf: full}, 1} }, true},
 			{"fail-after-31", func() io.Reader { return &failReader{&oneByteReader{&streamReader{buf: full}}, 31} }, true},
 			{"eof-after-31", func() io.Reader { return &streamReader{buf: full[:31]} }, true},
@@ -447,12 +504,30 @@ func run(c *mc.Ctx) {
 							}
 						}
 					}
-					// failing readers: an error, never a signature (n < 32); for n >= 32 a signature, if any, is the streamA one
+					for _, cn := range []int{7, 16, 31} {
+						if sc := get(fmt.Sprintf("streamA-%d-byte-reads", cn), &chunkReader{&streamReader{buf: gA}, cn}); sc != nil && sA != nil && !bytes.Equal(sc, sA) {
+							w.Fail("PrivateKey.Sign/randomised-short-reads", fmt.Sprintf("%s: %d-byte reads gave %x, whole reads %x", od, cn, sc, sA), cas(od))
+						}
+					}
+					// failing readers: an error, never a signature (n < 32); for n >= 32 a signature, if any, is the streamA one.
+					// Immediately after each failure the SAME key object is used again (error paths must leave nothing behind):
+					// the randomised request with stream A and the deterministic request must give their usual bytes.
 					for _, n := range []int{0, 1, 31, 32, 40} {
 						w.Eval("randomised/failing-reader", true)
 						sig, err, pan := sign(&failReader{&streamReader{buf: gA}, n})
 						if n < 32 {
 							mustErr(w, "PrivateKey.Sign/reader-failure", fmt.Sprintf("%s reader fails after %d bytes", od, n), sig, err, pan)
+							w.Eval("randomised/retry-after-failure", true)
+							rs, rerr, rpan := sign(&streamReader{buf: gA})
+							if rpan || rerr != nil || (sA != nil && !bytes.Equal(rs, sA)) {
+								w.Fail("PrivateKey.Sign/after-reader-failure", fmt.Sprintf("%s: after a reader failure (%d bytes) the same request with stream A gives sig=%x err=%v, before the failure %x", od, n, rs, rerr, sA), cas(od))
+							}
+							ds, derr, dpan := callSign(func() ([]byte, error) {
+								return priv.Sign(nil, m, &ed.Options{Hash: hash, Context: ctx, SelfVerify: sv == 1, Verify: vo})
+							})
+							if dpan || derr != nil || !bytes.Equal(ds, det) {
+								w.Fail("PrivateKey.Sign/after-reader-failure", fmt.Sprintf("%s: after a reader failure (%d bytes) the deterministic request gives sig=%x err=%v, RFC signature %x", od, n, ds, derr, det), cas(od))
+							}
 						} else if pan || (err == nil) == (sig == nil) || (sig != nil && sA != nil && !bytes.Equal(sig, sA)) {
 							w.Fail("PrivateKey.Sign/reader-failure-late", fmt.Sprintf("%s reader fails after %d bytes: sig=%x err=%v", od, n, sig, err), cas(od))
 						}
@@ -613,6 +688,191 @@ func run(c *mc.Ctx) {
 			}
 		}
 	}
+
+	// ---- sub-space "caller-memory": every byte-slice argument is a sub-slice of ONE caller buffer with spare capacity ----
+	// private key, message and seed live in one arena between guard bytes (capacity of every slice reaches the end of
+	// the arena).  Results must equal those for tight copies (= crypto/ed25519), the arena must be bit-identical after
+	// every call, results must not alias caller memory.  Shapes: separate regions; the message IS the public half of
+	// the private key; the message IS the seed half; the public key handed to Verify is a sub-slice of the private key.
+	memRad := mc.Product{Radix: []int{c.Pick(4, len(seeds)), 4, 3, 4}} // key, variant, alias shape, message length
+	c.Par("caller-memory", memRad.Size(), func(w *mc.W, i int) {
+		var d [4]int
+		memRad.Decode(i, d[:])
+		ki := (d[0] * 7) % len(seeds)
+		v := []vr{{0, "", "pure"}, {0, "caller-memory ctx", "ctx"}, {crypto.SHA512, "", "ph"}, {crypto.SHA512, "caller-memory ctx", "ph+ctx"}}[d[1]]
+		mlen := []int{0, 33, 64, 200}[d[3]]
+		if v.hash == crypto.SHA512 {
+			mlen = 64
+		}
+		alias := d[2]
+		if alias > 0 {
+			mlen = 32
+			if v.hash == crypto.SHA512 {
+				return // a 64-byte digest cannot alias a 32-byte half
+			}
+			if d[3] > 0 {
+				return
+			}
+		}
+		const g = 24
+		arena := make([]byte, g+64+g+mlen+g+32+g+16)
+		for j := range arena {
+			arena[j] = 0x5a ^ byte(j*11)
+		}
+		oPriv, oM, oSeed := g, g+64+g, g+64+g+mlen+g
+		priv := ed.PrivateKey(arena[oPriv : oPriv+64])
+		copy(priv, seeds[ki])
+		copy(priv[32:], rkeys[ki].Pub)
+		seed := arena[oSeed : oSeed+32]
+		copy(seed, seeds[ki])
+		var m []byte
+		switch alias {
+		case 0:
+			m = arena[oM : oM+mlen]
+			copy(m, mc.Bytes(c.Seed, "c02-mem-msg", i, mlen))
+		case 1:
+			m = priv[32:64:64]
+		case 2:
+			m = priv[:32]
+		}
+		snap := append([]byte{}, arena...)
+		what := fmt.Sprintf("caller-memory: seed=%x variant=%s msglen=%d alias-shape=%d", seeds[ki], v.name, len(m), alias)
+		intact := func(after string) {
+			if !bytes.Equal(arena, snap) {
+				w.Fail("caller-memory/modified", fmt.Sprintf("%s: caller buffer modified by %s: before %x after %x", what, after, snap, arena), nil)
+				copy(arena, snap)
+			}
+		}
+		tightM := append([]byte{}, m...)
+		want, err := stdKeys[ki].Sign(nil, tightM, &stded.Options{Hash: v.hash, Context: v.ctx})
+		if err != nil {
+			c.Broken("std-lib refused a valid signing request: " + err.Error())
+			return
+		}
+		for _, sv := range []bool{false, true} {
+			w.Eval("caller-memory/sign", true)
+			sig, serr, pan := callSign(func() ([]byte, error) {
+				return priv.Sign(nil, m, &ed.Options{Hash: v.hash, Context: v.ctx, SelfVerify: sv})
+			})
+			intact("PrivateKey.Sign")
+			if pan || serr != nil || !bytes.Equal(sig, want) {
+				w.Fail("PrivateKey.Sign/deterministic", fmt.Sprintf("%s SelfVerify=%v: sig=%x err=%v, crypto/ed25519 on tight copies %x", what, sv, sig, serr, want), nil)
+			}
+		}
+		// randomised: the same entropy with arena arguments and with tight copies
+		ent := stream(c.Seed, "c02-mem-entropy", i)
+		tightPriv := ed.PrivateKey(append([]byte{}, priv...))
+		w.Eval("caller-memory/sign-randomised", true)
+		r1, e1, p1 := callSign(func() ([]byte, error) {
+			return priv.Sign(&streamReader{buf: ent}, m, &ed.Options{Hash: v.hash, Context: v.ctx, AddedRandomness: true})
+		})
+		intact("PrivateKey.Sign(AddedRandomness)")
+		r2, e2, p2 := callSign(func() ([]byte, error) {
+			return tightPriv.Sign(&streamReader{buf: ent}, tightM, &ed.Options{Hash: v.hash, Context: v.ctx, AddedRandomness: true})
+		})
+		if p1 || p2 || e1 != nil || e2 != nil || !bytes.Equal(r1, r2) {
+			w.Fail("PrivateKey.Sign/randomised-caller-buffer", fmt.Sprintf("%s: arena arguments give %x (err %v), tight copies %x (err %v)", what, r1, e1, r2, e2), nil)
+		}
+		if v.hash == 0 && v.ctx == "" {
+			sig, _, pan := callSign(func() ([]byte, error) { return ed.Sign(priv, m), nil })
+			intact("Sign")
+			if pan || !bytes.Equal(sig, want) {
+				w.Fail("Sign", fmt.Sprintf("%s: Sign()=%x want %x", what, sig, want), nil)
+			}
+		}
+		// verification with the public key being a sub-slice of the private key and the message possibly inside it too
+		pub := ed.PublicKey(priv[32:])
+		for _, p := range presets {
+			o := &ed.Options{Hash: v.hash, Context: v.ctx, Verify: p.vo}
+			w.EvalN("caller-memory/verify", 2, true)
+			ok1, _ := callB(func() bool { return ed.VerifyWithOptions(pub, m, want, o) })
+			intact("VerifyWithOptions")
+			ok2 := false
+			if epk, err := ed.NewExpandedPublicKey(pub); err == nil {
+				intact("NewExpandedPublicKey")
+				ok2, _ = callB(func() bool { return ed.VerifyExpandedWithOptions(epk, m, want, o) })
+				intact("VerifyExpandedWithOptions")
+			}
+			if !ok1 || !ok2 {
+				w.Fail("Verify/rejects-RFC-signature/"+p.name, fmt.Sprintf("%s: VerifyWithOptions=%v VerifyExpandedWithOptions=%v on the RFC signature %x", what, ok1, ok2, want), nil)
+			}
+		}
+		bv := ed.NewBatchVerifier()
+		bv.AddWithOptions(pub, m, want, &ed.Options{Hash: v.hash, Context: v.ctx})
+		bv.AddWithOptions(pub, m, want, &ed.Options{Hash: v.hash, Context: v.ctx, Verify: ed.VerifyOptionsStdLib})
+		intact("BatchVerifier.AddWithOptions")
+		w.Eval("caller-memory/batch", true)
+		if all, each := bv.Verify(&streamReader{buf: ent}); !all || len(each) != 2 || !each[0] || !each[1] {
+			w.Fail("BatchVerifier.Verify/rejects-valid-signatures/Default", fmt.Sprintf("%s: all=%v each=%v", what, all, each), nil)
+		}
+		intact("BatchVerifier.Verify")
+		// accessors return copies; NewKeyFromSeed copies the seed
+		w.Eval("caller-memory/accessors", true)
+		if pb, ok := priv.Public().(ed.PublicKey); ok && len(pb) == 32 {
+			pb[0] ^= 0xff
+		}
+		intact("modifying the result of PrivateKey.Public()")
+		if sd := priv.Seed(); len(sd) == 32 {
+			sd[0] ^= 0xff
+		}
+		intact("modifying the result of PrivateKey.Seed()")
+		nk, _, pan := callSign(func() ([]byte, error) { return ed.NewKeyFromSeed(seed), nil })
+		intact("NewKeyFromSeed")
+		if pan || !bytes.Equal(nk, stdKeys[ki]) {
+			w.Fail("NewKeyFromSeed", fmt.Sprintf("%s: NewKeyFromSeed(slice with spare capacity)=%x want %x", what, nk, []byte(stdKeys[ki])), nil)
+		} else {
+			for j := range seed {
+				seed[j] = 0
+			}
+			if !bytes.Equal(nk, stdKeys[ki]) {
+				w.Fail("NewKeyFromSeed/aliases-caller-memory", what+": the returned key changed when the caller overwrote its seed buffer", nil)
+			}
+			nk[0] ^= 1
+			nk[40] ^= 1
+			copy(seed, seeds[ki])
+			intact("modifying the result of NewKeyFromSeed")
+		}
+	})
+
+	// ---- sub-space "arg-lengths": every length of the fixed-size arguments ----
+	c.Par("arg-lengths", c.Pick(4, 16), func(w *mc.W, i int) {
+		ki := (i * 5) % len(seeds)
+		v := []vr{{0, "", "pure"}, {0, "arg-lengths", "ctx"}, {crypto.SHA512, "", "ph"}, {crypto.SHA512, "arg-lengths", "ph+ctx"}}[i%4]
+		priv := ed.PrivateKey(append(append([]byte{}, seeds[ki]...), rkeys[ki].Pub...))
+		m := mc.Bytes(c.Seed, "c02-arglen-msg", i, 64)
+		long := bytes.Repeat(priv, 3)
+		for n := 0; n <= 130; n++ {
+			if n != 64 {
+				for ar := 0; ar < 2; ar++ {
+					w.Eval("arg-lengths/private-key", false)
+					sig, err, pan := callSign(func() ([]byte, error) {
+						return ed.PrivateKey(long[:n]).Sign(constReader(3), m, &ed.Options{Hash: v.hash, Context: v.ctx, AddedRandomness: ar == 1})
+					})
+					mustErr(w, "PrivateKey.Sign/key-length", fmt.Sprintf("variant=%s keylen=%d AddedRandomness=%v", v.name, n, ar == 1), sig, err, pan)
+				}
+				if v.hash == crypto.SHA512 {
+					w.Eval("arg-lengths/ph-digest", false)
+					sig, err, pan := callSign(func() ([]byte, error) {
+						return priv.Sign(nil, long[:n], &ed.Options{Hash: v.hash, Context: v.ctx})
+					})
+					mustErr(w, "PrivateKey.Sign/ph-digest-length", fmt.Sprintf("variant=%s digest length %d", v.name, n), sig, err, pan)
+				}
+			}
+			if n <= 70 && n != 32 {
+				w.Eval("arg-lengths/seed", false)
+				if _, _, pan := callSign(func() ([]byte, error) { return ed.NewKeyFromSeed(long[:n]), nil }); !pan {
+					w.Fail("NewKeyFromSeed/length", fmt.Sprintf("documented panic missing for seed length %d", n), nil)
+				}
+			}
+		}
+		for cl := 256; cl <= 300; cl++ {
+			w.Eval("arg-lengths/context", false)
+			sig, err, pan := callSign(func() ([]byte, error) {
+				return priv.Sign(nil, m, &ed.Options{Hash: v.hash, Context: string(bytes.Repeat([]byte{7}, cl))})
+			})
+			mustErr(w, "PrivateKey.Sign/invalid-options", fmt.Sprintf("variant=%s context length %d", v.name, cl), sig, err, pan)
+		}
+	})
 
 	// ---- sub-space "collisions": force collisions on anything state could be keyed by ----
 	// Every index owns a context nobody else uses (so the order of first use is fixed and the case replays alone): the
@@ -879,6 +1139,9 @@ func run(c *mc.Ctx) {
 	c.Require("invalid-options/error", 50)
 	c.Require("selfverify/corrupted-public-half", 50)
 	c.Require("collision/sign", 100)
+	c.Require("caller-memory/sign", 40)
+	c.Require("arg-lengths/private-key", 500)
+	c.Require("randomised/retry-after-failure", 50)
 	c.Require("collision/reject", 100)
 	c.Require("length-sweep/sign", 3000)
 	c.Require("randomised/zero", 50)
